@@ -261,6 +261,10 @@ func (m *blueGreenReleaseManager) doCanaryJump(c *RolloutContext) (jumped bool) 
 		// compare next step and current step to decide the state we should go
 		if reflect.DeepEqual(nextStep.Replicas, currentStep.Replicas) {
 			bluegreenStatus.CurrentStepState = v1beta1.CanaryStepStateTrafficRouting
+			// skipping the upgrade is only sound if the step we leave had already upgraded its pods
+			if currentStepStateBackup == v1beta1.CanaryStepStateInit || currentStepStateBackup == v1beta1.CanaryStepStateUpgrade {
+				bluegreenStatus.CurrentStepState = v1beta1.CanaryStepStateInit
+			}
 		} else {
 			bluegreenStatus.CurrentStepState = v1beta1.CanaryStepStateInit
 		}
